@@ -168,6 +168,59 @@ CLAIMS = {
              "mechanism the model mirrors by hand.",
         technique="Lean 4 proof (close-on-exec of every descriptor source) + close-multiset correspondence + fd-table oracle",
         ref="DESIGN.md §8 C11"),
+    "C12": dict(
+        text="Lean theorems (Props/C12.lean + C03): a mode with bits outside 0o1777 and the empty path are refused before any call; for every "
+             "environment the creating loop names only proper components (never '..', '.', '/') below the directory it just opened "
+             "O_NOFOLLOW|O_DIRECTORY (C03_mkdir_all_targets); a successful loop is, component by component, mkdirat answered success "
+             "*or EEXIST* (the race is tolerated), then openat(cur, part, O_NOFOLLOW|O_DIRECTORY|O_CLOEXEC|O_NOCTTY) answered with the next "
+             "directory, then close(cur), and the returned handle is the last directory opened that way (C12_loop_chain, for all "
+             "environments incl. racing callers). Tie and oracle: mkdir_all on generated trees/paths (existing prefixes through links, "
+             "'..' in the existing part, dangling links, non-directories in the way) on both backends, replayed through the model; "
+             "exact-effect oracle: nothing removed or modified, additions are directories forming one chain that starts in an "
+             "existing directory and ends at the returned handle, the handle is the live kernel's in-root resolution of the path, "
+             "created modes = requested & ~umask, a failure leaves at most a prefix chain. Racing-threads suite: 2-6 threads with "
+             "seeded yields at syscall boundaries create the same/overlapping chains; all must succeed with handles to the directories "
+             "at those paths and the tree must be exactly old + chains; every thread's transcript is replayed through the model.",
+        note="theorem partial: convergence of racing callers (all succeed) is proved only in the form 'EEXIST is tolerated and the walk "
+             "continues through whatever directory is there'; progress and the whole-tree frame condition are decided by the racing and "
+             "effect suites on the real filesystem. Finding F20 (mkdir_all(\"\") returned the root) was found by the effect oracle and "
+             "repaired. setgid inheritance is not exercised (generated trees have no setgid directories).",
+        technique="Lean 4 proof (run inversion of the creating loop for all environments; target discipline) + exact-effect differential + racing-threads replay",
+        ref="DESIGN.md §8 C12"),
+    "C13": dict(
+        text="Lean theorems (Props/C13.lean + C03): for every environment — any directory listings, racing callers, attackers — every "
+             "unlinkat and directory open of remove_all names one slash-free component that is neither '.' nor '..' below the directory "
+             "it was given or one it opened itself with O_DIRECTORY|O_NOFOLLOW, and no other mutating call is made (symlinks are only "
+             "unlinked, never traversed; nothing above or beside the named entry is touched); the names '.' and '..' are refused "
+             "before any call; success is reported only after the kernel itself said the named entry is gone (an unlinkat(parent,name) "
+             "answered success or ENOENT, or the directory open answered ENOENT) — C13_success_witness, hence every racing caller that "
+             "reports success has seen the entry absent; trailing slash = resolve parent, close, InvalidArgument. Tie and oracle: "
+             "remove_all on generated trees (deep/wide subtrees, links to siblings/parents/outside, hard links) and path spellings on "
+             "both backends, replayed through the model; exact-effect oracle over a snapshot of the root *and its surroundings*: "
+             "exactly the named subtree disappears, link targets inside and outside untouched, a failure removes nothing outside the "
+             "subtree. Racing-threads suite: 2-6 threads remove the same non-empty directory; all must report success, the entry must "
+             "be absent, nothing else changed; every thread's transcript is replayed through the model.",
+        note="theorem partial: that *all* racing callers succeed (progress) is decided by the racing suite, not proved. Finding F1 "
+             "(remove_all of '.'/'..' emptied the parent) was repaired earlier; before it C13_dot_refused was false.",
+        technique="Lean 4 proof (Safe logic with a mutation-target predicate; run inversion: success implies a kernel witness of absence) + exact-effect differential + racing-threads replay",
+        ref="DESIGN.md §8 C13"),
+    "C14": dict(
+        text="Lean theorems (Props/C14.lean), for every environment: a successful create (all inode types but hard links), remove_file, "
+             "remove_dir, rename and create_file is call by call: the in-root resolution (the program C01/C02 are about) of the parent part "
+             "as split by path_split; exactly one mutating *at call on (that descriptor, final name) which the kernel acknowledged — for "
+             "create_file one openat with O_CREAT|O_NOFOLLOW|O_CLOEXEC|O_NOCTTY whose answer is the returned descriptor; closing the "
+             "parent(s); nothing else. The final name is one non-empty slash-free component; a trailing slash never reaches the mutating "
+             "call (C03_trailing_slash_*). Tie and oracle: generator of mostly-applicable single-entry operations (existing entries "
+             "spelled plainly, through '..' detours, through links to the parent, with leading slash; fresh and existing destinations; "
+             "all rename flags) plus the adversarial generator, both backends, replayed through the model; exact-effect oracle: the "
+             "snapshot after = snapshot before with exactly the entry (kernel-resolved parent, name) created/removed/moved/exchanged "
+             "(whole subtrees move with a directory), hard-link counts accounted, link bodies equal, nothing else inside or outside "
+             "the root changed, failures change nothing, create_file's descriptor is the inode now under that name, O_EXCL/NOREPLACE "
+             "honoured, a final symlink is never followed.",
+        note="The effect of one *at call on (O_PATH directory descriptor, single name) is the kernel's contract; the oracle observes it on "
+             "the live kernel. Hard-link creation's source lookup is covered by the tie and oracle, not by the shape theorem.",
+        technique="Lean 4 proof (run inversion: operation = parent resolution + one acknowledged *at call + close) + exact-effect differential against kernel-resolved targets",
+        ref="DESIGN.md §8 C14"),
     "C15": dict(
         text="Lean theorems (Props/C15.lean): the decision the emulated resolver evaluates equals the kernel's may_follow_link "
              "(transcribed from fs/namei.c as early returns) for every sysctl value, caller uid, link owner, directory mode and "
